@@ -598,8 +598,20 @@ func c07Render(t engine.Term, sb *strings.Builder, args *[]interface{}, vars map
 	case engine.Integer:
 		switch {
 		case int64(t) == math.MinInt64:
-			sb.WriteString("(?)")
-			*args = append(*args, int64(t))
+			// the smallest integer: as a Go value, and as a LITERAL (its magnitude alone is not an integer:
+			// the reader has to apply the sign before it checks the range), decimal / hexadecimal / octal
+			*flip++
+			switch *flip % 4 {
+			case 0:
+				sb.WriteString("(?)")
+				*args = append(*args, int64(t))
+			case 1:
+				sb.WriteString("(-9223372036854775808)")
+			case 2:
+				sb.WriteString("(-0x8000000000000000)")
+			default:
+				sb.WriteString("(-0o1000000000000000000000)")
+			}
 		case t < 0:
 			fmt.Fprintf(sb, "(%d)", int64(t))
 		default:
